@@ -55,6 +55,9 @@ RULE = (
     "mpe A, mpe B, decimate, inject unbound B} plus sampled length-5 sequences over 3 names, 6 classes, 2 parameter "
     "sets, 2 mpe argument sets, 3 preprocessing kinds, rollback; after EVERY call: exception class, dict order, class, "
     "hash(run_params), hash(result), hash(bound data), hash(setup data) vs the model's terms evaluated stand-alone; "
+    "two-algorithm sessions (add, add, run_all, mpe, mpe, mpe) for all 36 class pairs with ONE caller-owned sel_freq list "
+    "per selection shared by all mpe calls of a sequence (sorted, single and non-ascending selections; SSI with its "
+    "default order='find_min'); monitor that the caller's argument lists are unchanged after every call; "
     "history projection (C15_history_independent) replayed on the real code; PoSER: all (type list <= 2 of 3 classes) x "
     "(unrun/run/mpe per algorithm) x (names 0..3) for 0..2 setups exhaustively, 3 setups exhaustive over type lists + "
     "sampled states (thorough: 3 setups exhaustive over 2 classes, 4 setups sampled). distinct = distinct sequences / "
@@ -91,15 +94,19 @@ BASE = {  # parameter-set id -> (class, kwargs); small so that a run takes milli
 _EF = {
     "m1": dict(sel_freq=[2.5, 4.5], DF1=1.0, DF2=2.0, sppk=1, npmax=3),
     "m2": dict(sel_freq=[4.5], DF1=0.8, DF2=1.5, sppk=0, npmax=3),
+    "m3": dict(sel_freq=[4.5, 2.5], DF1=1.0, DF2=2.0, sppk=1, npmax=3),  # the user's order, not ascending
 }
-_SS = {"m1": dict(sel_freq=[2.5, 4.5], order=6), "m2": dict(sel_freq=[4.5], order=5, rtol=0.2)}
+_SS = {"m1": dict(sel_freq=[2.5, 4.5], order=6), "m2": dict(sel_freq=[4.5], order=5, rtol=0.2),
+       "m3": dict(sel_freq=[4.5, 2.5])}  # defaults of the signature: order="find_min", rtol=5e-2
 MPE = {
-    "FDD": {"m1": dict(sel_freq=[2.5, 4.5], DF=1.0), "m2": dict(sel_freq=[4.5], DF=0.8)},
+    "FDD": {"m1": dict(sel_freq=[2.5, 4.5], DF=1.0), "m2": dict(sel_freq=[4.5], DF=0.8),
+            "m3": dict(sel_freq=[4.5, 2.5], DF=1.0)},
     "EFDD": _EF,
     "FSDD": _EF,
     "SSIcov": _SS,
     "SSIdat": _SS,
-    "pLSCF": {"m1": dict(sel_freq=[2.5, 4.5], order=4, rtol=0.5), "m2": dict(sel_freq=[4.5], order=3, rtol=0.5)},
+    "pLSCF": {"m1": dict(sel_freq=[2.5, 4.5], order=4, rtol=0.5), "m2": dict(sel_freq=[4.5], order=3, rtol=0.5),
+              "m3": dict(sel_freq=[4.5, 2.5], order=4, rtol=0.5)},
 }
 PRE = {
     "dec2": lambda s: s.decimate_data(q=2),
@@ -181,7 +188,10 @@ def make(cls, name, pid):
     return L[cls](name=name, **copy.deepcopy(kw))
 
 
-def apply_op(ss, op):
+def apply_op(ss, op, caller=None):
+    """`caller`: the user's own argument objects of this session.  A user writes `sel = [...]` once and passes the
+    same list to the mpe of several algorithms; the statement's isolation must hold then too, and nothing the
+    caller passes in may be modified."""
     k = op["k"]
     if k == "add":
         ss.add_algorithms(make(op["c"], op["n"], op["p"]))
@@ -198,7 +208,11 @@ def apply_op(ss, op):
     elif k == "mpe":
         alg = ss.algorithms.get(op["n"])
         kw = MPE[type(alg).__name__][op["a"]] if alg is not None else dict(sel_freq=[1.0])
-        ss.mpe(op["n"], **copy.deepcopy(kw))
+        kw = copy.deepcopy(kw)
+        if caller is not None:
+            key = tuple(kw["sel_freq"])
+            kw["sel_freq"] = caller.setdefault(key, list(key))  # ONE list object per selection and session
+        ss.mpe(op["n"], **kw)
     elif k == "pre":
         PRE[op["q"]](ss)
     elif k == "rollback":
@@ -210,7 +224,7 @@ def apply_op(ss, op):
 _ARRS = {}  # fingerprint -> copy of a data array seen as setup.data (few distinct ones)
 
 
-def observe(ss, out, user):
+def observe(ss, out, user, caller=None):
     algs = []
     for n, a in ss.algorithms.items():
         d = getattr(a, "data", _MISSING)
@@ -233,7 +247,8 @@ def observe(ss, out, user):
     dfp = fp(ss.data)
     if dfp not in _ARRS:
         _ARRS[dfp] = ss.data
-    return dict(out=out, data=[dfp, float(ss.fs)], user=fp(user), algs=algs)
+    bad = [list(k) for k, v in (caller or {}).items() if type(v) is not list or tuple(v) != k]
+    return dict(out=out, data=[dfp, float(ss.fs)], user=fp(user), algs=algs, caller_bad=bad)
 
 
 def arrays_intact(world):
@@ -247,14 +262,15 @@ def execute(world, seq):
     """run the call sequence on a new real SingleSetup; observations before the first and after every call"""
     user = world.data0.copy()
     ss = lib()["SingleSetup"](user, FS0)
-    obs = [observe(ss, "init", user)]
+    caller = {}
+    obs = [observe(ss, "init", user, caller)]
     for op in seq:
         try:
-            apply_op(ss, op)
+            apply_op(ss, op, caller)
             out = "ok"
         except Exception as e:  # noqa: BLE001
             out = type(e).__name__
-        obs.append(observe(ss, out, user))
+        obs.append(observe(ss, out, user, caller))
     return obs, ss
 
 
@@ -408,7 +424,7 @@ def sample_seq(rng, L=5):
         elif u < 0.62:
             seq.append(dict(k="run_all"))
         elif u < 0.84:
-            seq.append(dict(k="mpe", n=n if rng.random() < 0.95 else "Z", a=rng.choice(["m1", "m2"])))
+            seq.append(dict(k="mpe", n=n if rng.random() < 0.95 else "Z", a=rng.choice(["m1", "m2", "m3", "m3"])))
         elif u < 0.93:
             if npre < 2:
                 npre += 1
@@ -422,6 +438,22 @@ def sample_seq(rng, L=5):
             c = cls_of[n]
             seq.append(dict(k="inject", n=n, c=c, p=rng.choice([c, None]), none=rng.random() < 0.5))
     return seq
+
+
+def sessions(ctx):
+    """a user's session with two algorithms: add both, run_all, extract from both with the SAME selection (one list
+    object, see `apply_op`), extract again from the first - every ordered pair of the 6 classes (incl. twice the
+    same class), every argument set (quick: a seed-dependent third of the pairs for m1/m2, all pairs for the
+    unsorted selection m3)"""
+    six = CLASSES5 + ["FSDD"]
+    out = []
+    for i, (ca, cb) in enumerate(itertools.product(six, repeat=2)):
+        for a in ("m3", "m1", "m2"):
+            if not ctx.thorough and a != "m3" and (i + ctx.seed) % 3:
+                continue
+            out.append([dict(k="add", n="A", c=ca, p=ca), dict(k="add", n="B", c=cb, p=cb + ("_b" if ca == cb else "")),
+                        dict(k="run_all"), dict(k="mpe", n="A", a=a), dict(k="mpe", n="B", a=a), dict(k="mpe", n="A", a=a)])
+    return out
 
 
 def seq_sig(seq):
@@ -695,6 +727,7 @@ def sequences(ctx):
             ex += [list(t) for t in itertools.product(al, repeat=L)]
             ctx.count(f"universe_{ca}_{cb}_len{L}")
         sm = [sample_seq(ctx.rng) for _ in range(ctx.n(250, 4000))]
+        sm += sessions(ctx)
         _SEQS[key] = (ex, sm)
     return _SEQS[key]
 
@@ -766,6 +799,11 @@ def judge(world, seq, obs, report, stats):
         # ---- the shared data array
         if after["user"] != before["user"]:
             report(f"user-data-mutated:{k}", "the array the user passed to SingleSetup changed", i)
+        if after.get("caller_bad") and not before.get("caller_bad"):
+            c_ = B[tgt]["c"] if tgt in B else "-"
+            report(f"caller-args-mutated:{c_}.{k}",
+                   f"{seq_sig([op])} modified the sel_freq list object the caller passed in (and passes to other calls)",
+                   i, after["caller_bad"])
         if k not in ("pre", "rollback") and after["data"] != before["data"]:
             report(f"setup-data-changed:{k}", "setup.data / fs changed by a call that is not preprocessing", i)
         if k == "rollback":
